@@ -27,7 +27,7 @@ SUITES = ["g1_tseitin", "g1_kcolor", "g1_ecolor", "g1_domset", "g1_tiling", "g1_
 
 RULE = ("per family x {CNF, OPB}: graphs from a shape generator (null graph, isolated vertices, single edge, paths, "
         "stars, cycles, complete graphs, disconnected unions, Eulerian unions of cycles, random G(n,p), graphs with "
-        ">= 10 vertices; thorough tier: ALL labelled graphs with <= 4 vertices) x parameters (k, d from -1/0 to n+1; "
+        ">= 10 vertices; thorough tier: ALL labelled graphs with <= 4 vertices with the full parameter grid and ALL with 5 vertices with sampled parameters; quick tier: all with <= 3 vertices and a sample with 4) x parameters (k, d from -1/0 to n+1; "
         "charges: default, all-zero, all-one, random non-boolean, too short, too long; flags functional / alternative); "
         "distinct = distinct request line; non-trivial = graph has at least one vertex")
 ASSUMPTIONS = ["graph arguments are cnfgen.graphs.Graph objects built through add_edge (hypothesis GoodGraph in the theorems; "
@@ -227,7 +227,7 @@ def shape_graphs(rng, tier):
     add("bowtie", 5, [(1, 2), (2, 3), (1, 3), (3, 4), (4, 5), (3, 5)])
     add("K33", 6, [(i, j) for i in (1, 2, 3) for j in (4, 5, 6)])
     # random G(n,p), relabelled at random (so that edge order != construction order)
-    reps = 10 if tier == "quick" else 60
+    reps = 24 if tier == "quick" else 80
     for _ in range(reps):
         n = rng.randint(2, 7)
         p = rng.choice([.2, .4, .5, .7])
@@ -713,12 +713,21 @@ def cases(ctx):
                 continue
             infos.append((suite, dict(info, opb=opb, maxv=mv, shape="corpus")))
     for shape, n, edges in shape_graphs(rng, tier):
-        full = n <= (3 if tier == "quick" else 4) and shape != "gnp"
+        full = n <= 4 and shape != "gnp"
         infos += infos_for_graph(rng, tier, shape, n, edges, full)
-    if tier == "thorough":
+    if tier == "quick":
+        for nn in range(0, 4):
+            for n, edges in all_graphs(nn):
+                infos += infos_for_graph(rng, tier, "all<=3", n, edges, True)
+        four = list(all_graphs(4))
+        for n, edges in rng.sample(four, 10):
+            infos += infos_for_graph(rng, tier, "some4", n, edges, True)
+    else:
         for nn in range(0, 5):
             for n, edges in all_graphs(nn):
                 infos += infos_for_graph(rng, tier, "all<=4", n, edges, True)
+        for n, edges in all_graphs(5):
+            infos += infos_for_graph(rng, tier, "all5", n, edges, False)
     seen = set()
     for suite, info in infos:
         c = build(suite, info)
